@@ -1373,7 +1373,10 @@ func sdTogether(o *common.Out, id string, closeFirst bool) {
 	}
 	select {
 	case e := <-served:
-		if e != server.ErrServerClosed {
+		// Shutdown first: the serve loop returns the server-closed error.  Close first: the listener is closed before
+		// anybody has asked for a shutdown, and the serve loop may already have returned with the listener's own error
+		// by the time Shutdown is called - it has returned, that is all there is to ask
+		if e != server.ErrServerClosed && !closeFirst {
 			o.Fail(id, "serve-return", fmt.Sprintf("the serve loop returned %v", e), abstract)
 		}
 	case <-time.After(3 * time.Second):
